@@ -56,7 +56,15 @@ def run(tier, seed, replay):
                 # whichever libjwt function happened to call it
                 fr = kchain.split("<")
                 keep = [f for i, f in enumerate(fr) if all(x.startswith(("jansson*", "json_")) for x in fr[:i + 1])]
-                kchain = "<".join(keep)
+                # ... and by the *family* of that entry point: whether libjwt reaches jansson's parser through json_loads or json_loadb,
+                # its dumper through json_dumps or json_dumpb, is libjwt's choice and not part of the jansson defect
+                fam = []
+                for f in keep:
+                    g = ("json_load*" if f.startswith("json_load") else
+                         "json_dump*" if f.startswith("json_dump") else f)
+                    if not fam or fam[-1] != g:
+                        fam.append(g)
+                kchain = "<".join(fam)
             rep.violation("%s:%s:%s" % (kind, outcome, kchain), "with allocation #%d failing, scenario %s: %s" % (k, name, outcome),
                           dict(scenario=name, k=k, n=scen.get(si, {}).get("n"), chain=chain, got=e[5] if len(e) > 5 else None, baseline=e[6] if len(e) > 6 else None))
     for cr in crashes:
